@@ -757,3 +757,23 @@ Qed.
 
 Lemma lines_lok x : Forall (fun l => LOK (norm_line l)) (lines x).
 Proof. pose proof (lines_clean x) as C. induction C; constructor; [now apply clean_line_lok | assumption]. Qed.
+
+Lemma finalize_document_qi o st st' : finalize_document o st = Ok st' -> QI st -> QI st'.
+Proof.
+  unfold finalize_document. intros H P. mon H; monall. repeat match goal with p : (_ * _)%type |- _ => destruct p end. cbn [fst snd] in *.
+  eapply finalize_qi; [eassumption|]. eapply finalize_up_to_qi; eassumption.
+Qed.
+
+(* the stored-value invariant holds of the tree the block phase answers: every input, every option set *)
+Theorem parse_blocks_val o x r : parse_blocks o x = Ok r -> all_info Qn (br_root r).
+Proof.
+  unfold parse_blocks. intro H.
+  destruct (front_matter_prologue o init_state x) as [[st rest]| |] eqn:E; cbn [bind] in H; try discriminate H.
+  pose proof (front_matter_prologue_qi _ _ _ _ E) as P.
+  pose proof (lines_lok rest) as LK. unfold lines in LK. destruct (feed_lines rest) as [ls total]. cbn [fst] in LK.
+  unfold run_lines in H.
+  destruct (process_lines o st ls) as [s1| |] eqn:R; cbn [bind] in H; try discriminate H.
+  destruct (finalize_document o s1) as [s2| |] eqn:F; cbn [bind] in H; try discriminate H.
+  inversion H; subst. cbn [br_root]. apply QI_all.
+  eapply finalize_document_qi; [exact F|]. eapply process_lines_qi; eassumption.
+Qed.
